@@ -89,29 +89,28 @@ pub proof fn lemma_chain_frame(kw: HeapW, kw2: HeapW, head: nat, s: Seq<nat>, b:
         forall|i: int| 0 <= i < s.len() ==> kw2.slots[#[trigger] s[i]] == kw.slots[s[i]],
     ensures chain_ok(kw2, head, s, b, n)
 {
-    reveal(chain_ok);
+    lemma_chain_head(kw, head, s, b, n);
     assert forall|i: int| 0 <= i < s.len() implies {
         &&& #[trigger] is_key(kw2, s[i])
         &&& s[i] != 0
         &&& knext(kw2, s[i]) == nxt(s, i)
         &&& bucket_of(kkey(kw2, s[i]), n) == b
     } by {
-        assert(is_key(kw, s[i]));
+        lemma_chain_member(kw, head, s, b, n, i);
         assert(is_key(kw2, s[i]));
         assert(kw2.slots[s[i]] == kw.slots[s[i]]);
     }
-    // the other two conjuncts, spelled out (the bare unfolding was unstable under some z3 seeds)
-    assert(first(s) == head);
     assert forall|i: int, j: int| 0 <= i < j < s.len() implies s[i] != s[j] by {
         lemma_chain_member(kw, head, s, b, n, i);
     }
+    assert(chain_ok(kw2, head, s, b, n)) by { reveal(chain_ok); }
 }
 pub proof fn lemma_chain_push(kw: HeapW, head: nat, s: Seq<nat>, b: int, n: int, ko: nat)
     requires chain_ok(kw, head, s, b, n), is_key(kw, ko), ko != 0, knext(kw, ko) == head, bucket_of(kkey(kw, ko), n) == b, !s.contains(ko)
     ensures chain_ok(kw, ko, seq![ko] + s, b, n)
 {
-    reveal(chain_ok);
     let s2 = seq![ko] + s;
+    lemma_chain_head(kw, head, s, b, n);
     assert forall|i: int| 0 <= i < s2.len() implies {
         &&& #[trigger] is_key(kw, s2[i])
         &&& s2[i] != 0
@@ -120,7 +119,7 @@ pub proof fn lemma_chain_push(kw: HeapW, head: nat, s: Seq<nat>, b: int, n: int,
     } by {
         if i > 0 {
             assert(s2[i] == s[i - 1]);
-            assert(is_key(kw, s[i - 1]));
+            lemma_chain_member(kw, head, s, b, n, i - 1);
             assert(nxt(s2, i) == nxt(s, i - 1));
         } else {
             assert(nxt(s2, 0) == first(s));
@@ -128,8 +127,11 @@ pub proof fn lemma_chain_push(kw: HeapW, head: nat, s: Seq<nat>, b: int, n: int,
     }
     assert forall|i: int, j: int| 0 <= i < j < s2.len() implies s2[i] != s2[j] by {
         assert(s2[j] == s[j - 1]);
+        lemma_chain_member(kw, head, s, b, n, j - 1);
         if i > 0 { assert(s2[i] == s[i - 1]); } else { assert(s.contains(s[j - 1])); }
     }
+    assert(first(s2) == ko);
+    assert(chain_ok(kw, ko, s2, b, n)) by { reveal(chain_ok); }
 }
 /// member i leaves the chain: its predecessor (if any) was relinked past it, all other members are unchanged
 pub proof fn lemma_chain_remove(kw: HeapW, kw2: HeapW, head: nat, s: Seq<nat>, b: int, n: int, i: int)
@@ -139,8 +141,9 @@ pub proof fn lemma_chain_remove(kw: HeapW, kw2: HeapW, head: nat, s: Seq<nat>, b
         i > 0 ==> is_key(kw2, s[i - 1]) && kkey(kw2, s[i - 1]) == kkey(kw, s[i - 1]) && knext(kw2, s[i - 1]) == nxt(s, i),
     ensures chain_ok(kw2, if i == 0 { nxt(s, 0) } else { head }, rm(s, i), b, n)
 {
-    reveal(chain_ok);
     let s2 = rm(s, i);
+    let head2 = if i == 0 { nxt(s, 0) } else { head };
+    lemma_chain_head(kw, head, s, b, n);
     assert forall|j: int| 0 <= j < s2.len() implies {
         &&& #[trigger] is_key(kw2, s2[j])
         &&& s2[j] != 0
@@ -150,11 +153,12 @@ pub proof fn lemma_chain_remove(kw: HeapW, kw2: HeapW, head: nat, s: Seq<nat>, b
         let j0 = if j < i { j } else { j + 1 };
         assert(s2[j] == s[j0]);
         if j + 1 < s2.len() { assert(s2[j + 1] == s[(if j + 1 < i { j + 1 } else { j + 2 })]); }
-        assert(is_key(kw, s[j0]));
+        lemma_chain_member(kw, head, s, b, n, j0);
         if j0 == i - 1 {
             assert(nxt(s2, j) == nxt(s, i));
         } else {
             assert(is_key(kw2, s[j0]));
+            assert(kw2.slots[s[j0]] == kw.slots[s[j0]]);
             assert(nxt(s2, j) == nxt(s, j0));
         }
     }
@@ -162,8 +166,11 @@ pub proof fn lemma_chain_remove(kw: HeapW, kw2: HeapW, head: nat, s: Seq<nat>, b
         let a = if j1 < i { j1 } else { j1 + 1 };
         let c = if j2 < i { j2 } else { j2 + 1 };
         assert(s2[j1] == s[a] && s2[j2] == s[c]);
+        lemma_chain_member(kw, head, s, b, n, a);
     }
     if s2.len() > 0 { if i == 0 { assert(s2[0] == s[1]); } else { assert(s2[0] == s[0]); } }
+    assert(first(s2) == head2);
+    assert(chain_ok(kw2, head2, s2, b, n)) by { reveal(chain_ok); }
 }
 
 pub proof fn lemma_total_update(cs: Seq<Seq<nat>>, b: int, s2: Seq<nat>)
@@ -475,19 +482,23 @@ pub proof fn lemma_chain_same_links(kw: HeapW, kw2: HeapW, head: nat, s: Seq<nat
         is_key(kw, ko) ==> is_key(kw2, ko) && kkey(kw2, ko) == kkey(kw, ko) && knext(kw2, ko) == knext(kw, ko),
     ensures chain_ok(kw2, head, s, b, n)
 {
-    reveal(chain_ok);
+    lemma_chain_head(kw, head, s, b, n);
     assert forall|i: int| 0 <= i < s.len() implies {
         &&& #[trigger] is_key(kw2, s[i])
         &&& s[i] != 0
         &&& knext(kw2, s[i]) == nxt(s, i)
         &&& bucket_of(kkey(kw2, s[i]), n) == b
     } by {
-        assert(is_key(kw, s[i]));
+        lemma_chain_member(kw, head, s, b, n, i);
         if s[i] != ko {
             assert(kw.slots.dom().contains(s[i]) && !(kw.slots[s[i]].c is Free));
             assert(kw2.slots.dom().contains(s[i]));
         }
     }
+    assert forall|i: int, j: int| 0 <= i < j < s.len() implies s[i] != s[j] by {
+        lemma_chain_member(kw, head, s, b, n, i);
+    }
+    assert(chain_ok(kw2, head, s, b, n)) by { reveal(chain_ok); }
 }
 } // verus!
 
